@@ -53,6 +53,7 @@ class Ref:
             self.mets[m["id"]] = {"name": m.get("name", ""), "formula": m.get("formula"), "charge": m.get("charge"),
                                   "compartment": m.get("compartment"), "notes": copy.deepcopy(m.get("notes", {})),
                                   "annotation": copy.deepcopy(m.get("annotation", {})), "uid": _uid()}
+        self.user_vars = set()  # names of user variables currently in the solver (an identifier clash makes an add fail)
         self.graveyard: List[int] = []  # uids of reaction objects taken out by remove_reactions, in removal order
         self.dead_rxns: Dict[int, Dict[str, Any]] = {}  # last state of every reaction object that left the model
         self.dead_mets: Dict[int, Tuple[str, Dict[str, Any]]] = {}  # metabolite objects that left the model
@@ -178,8 +179,15 @@ class Ref:
                           "uid": _uid()}
         self._ensure_genes(d["rule"])
 
+    def bad_rid(self, rid):
+        """Identifiers that cannot become a reaction: rejected by the solver layer (whitespace) or already taken by a
+        user variable. The documented behaviour of every operation is to raise on them and to change nothing."""
+        return any(c.isspace() for c in rid) or rid in self.user_vars
+
     def op_add_reactions(self, op, o, out):
         # "Reactions with identifiers identical to a reaction already in the model are ignored."
+        if any(self.bad_rid(RID[d["id"]]) for d in op["rxns"] if RID[d["id"]] not in self.rxns):
+            raise Expect(("ValueError", "KeyError"))
         for d in op["rxns"]:
             if RID[d["id"]] not in self.rxns:
                 self._add_rxn_spec(d)
@@ -222,6 +230,8 @@ class Ref:
         ids = [MID[i] for i in op["mets"]]
         if op["single"]:
             ids = ids[:1]
+        if any(any(c.isspace() for c in mid) for mid in ids if mid not in self.mets):
+            raise Expect("ValueError")
         for mid in ids:
             if mid not in self.mets:
                 self.mets[mid] = new_met(mid)
@@ -262,6 +272,8 @@ class Ref:
             sbo = "SBO:0000632"  # passed by the driver
         if rid in self.rxns:
             raise Expect("ValueError")  # "Boundary reaction ... already exists."
+        if self.bad_rid(rid):
+            raise Expect(("ValueError", "KeyError"))
         if lb > ub:
             raise Expect("ValueError")
         self.rxns[rid] = {"mets": {mid: -1}, "lb": lb, "ub": ub, "rule": None, "name": f"{self.mets[mid]['name']} {typ}",
@@ -378,6 +390,8 @@ class Ref:
             return
         if new in self.rxns:
             raise Expect("ValueError")
+        if self.bad_rid(new):
+            raise Expect(("ValueError", "KeyError", "ContainerAlreadyContains"))
         self.rxns = {(new if r == old else r): v for r, v in self.rxns.items()}
         if old in self.objective:
             self.objective[new] = self.objective.pop(old)
@@ -388,6 +402,8 @@ class Ref:
         if new == old:
             return
         if new in self.mets:
+            raise Expect("ValueError")
+        if any(c.isspace() for c in new):
             raise Expect("ValueError")
         self.mets = {(new if m == old else m): v for m, v in self.mets.items()}
         for r in self.rxns.values():
@@ -550,4 +566,12 @@ class Ref:
     def op_copy(self, op, o, out):
         self.graveyard = []  # the driver continues on the copy; removed objects belong to the original's history
 
-    op_solver = op_optimize = op_repair = op_add_cons = op_add_var = op_remove_cons = _noop
+    def op_add_var(self, op, o, out):
+        if not out.startswith("raised"):
+            self.user_vars.add(f"uvar{op['name']}")
+
+    def op_remove_cons(self, op, o, out):
+        if op["what"] == "var" and not out.startswith("raised"):
+            self.user_vars.discard(f"uvar{op['name']}")
+
+    op_solver = op_optimize = op_repair = op_add_cons = _noop
